@@ -158,7 +158,7 @@ def _observe_nodes(it):
 def _register_patch_obj(shape):
     depth = len(shape) + 1
 
-    @contract(f"_patch_obj==place_at[{'/'.join(shape) or 'one token'}]", ("C19",), [Q + "_patch_obj"], tier="quick")
+    @contract(f"_patch_obj==place_at[{'/'.join(shape) or 'one token'}]", ("C19",), [Q + "_patch_obj"], replay=("patch_obj_replay", [list(shape)]), tier="quick")
     def _c(ctx, shape=shape, depth=depth):
         toks = [ctx.val(f"token{k}") for k in range(depth)]
         for t in toks:
